@@ -220,3 +220,32 @@ func H_C07_outcomes() {
 type hErr struct{ x int }
 
 func (e *hErr) Error() string { return "hErr" }
+
+// ---- C02: the real dispatcher loop's guard, from a constructed state: `inflight` invocations are in progress
+// (ghost: long-running jobs accounted in curProcessing), the limit is then tuned to n <= inflight, and a job is
+// submitted. Whatever wakes the loop, it must not dispatch while inflight >= limit; it must dispatch when
+// inflight < limit.
+func H_C02_guard() {
+	conc := vNondetRange(2, 3)
+	inflight := vNondetRange(0, 3)
+	n := vNondetRange(1, 3)
+	vAssume(inflight <= conc && n <= conc)
+	runs := 0
+	w, q := mWorkerLoop(func(j Job[int]) { runs++ }, 1, 1)
+	w.concurrency.Store(uint32(conc))
+	w.curProcessing.Store(uint32(inflight))
+	if n != conc {
+		err := w.TunePool(n)
+		vAssert("C02.guard.tune-ok", err == nil)
+	}
+	q.Add(0)
+	vPrologueEnd()
+	vAtAnyCut(func() {
+		vReach("C02.guard.cut")
+		vAssert("C02.guard.no-dispatch-at-limit", inflight < n || runs == 0)
+	})
+	vAtQuiescence(func() {
+		vReach("C02.guard.quiescent")
+		vAssert("C02.guard.dispatch-below-limit", inflight >= n || runs == 1)
+	})
+}
